@@ -125,6 +125,10 @@ def run(ctx):
     c02.run(ctx, hook_cls=C03Hook, prop='C03', drv='drv_c03')
 
 
+def search(ctx):
+    c02.search(ctx, hook_cls=C03Hook)
+
+
 def replay(ctx, obj):
     lb.quiet()
     case = obj['case']
